@@ -12,9 +12,14 @@ def escape_quotes_and_backslashes(s):
     return s.replace(u'\\', u'\\\\').replace(u"'", u"\\'")
 
 
+# An object path step may be written bare only if it is an identifier of the
+# pattern grammar (IdentifierWithoutHyphen).
+_BARE_PATH_STEP_RE = re.compile(r"^[a-zA-Z_][a-zA-Z0-9_]*\Z")
+
+
 def quote_if_needed(x):
     if isinstance(x, str):
-        if x.find("-") != -1:
+        if not _BARE_PATH_STEP_RE.match(x):
             if not x.startswith("'"):
                 return "'" + x + "'"
     return x
